@@ -369,3 +369,25 @@ def className : Cmd → String
   | .ambiguous .. => "device.general.AmbiguousInstanceType"
 
 end DaliVerif.Cmd
+
+namespace DaliVerif.Cmd
+
+/-- `DeviceInstanceTypeMapper.add_type` after its argument conversions
+(`DeviceShort → .address`, `InstanceNumber → .value`, module → `int(module.instance_type)`):
+a later entry for the same key replaces the earlier one -/
+def InstMap.addType (m : InstMap) (sa inum : Nat) (t : Int) : InstMap := ((sa, inum), t) :: m
+
+def isAmbiguous : Cmd → Bool
+  | .ambiguous .. => true
+  | _ => false
+
+/-- `AmbiguousInstanceType.retry_decode(dev_inst_map)`: decode the object's own
+frame again with the map; `None` if it is still ambiguous -/
+def retryDecode (T : Tables) (c : Cmd) (m : InstMap) : Option Cmd :=
+  match encode c with
+  | .ok f =>
+      let r := decode T f.bits f.data 0 (some m)
+      if isAmbiguous r then none else some r
+  | .error _ => none
+
+end DaliVerif.Cmd
